@@ -1,21 +1,26 @@
 ENTRY = dict(
-    runner="C13", pkg="./cmd/c13", corr=["Corr.C13Corr"], n=dict(quick=530, thorough=1010), runner_timeout=900,
-    rule="every predefined parrot plus one custom spec (TLSVersMax 1.2 under a supported_versions list {1.3,1.2}) over loopback TCP "
-         "against scripted servers: honest Go servers with MaxVersion 1.0/1.1/1.2/1.3; legacy servers negotiating from "
-         "legacy_version only (supported_versions ignored) with MaxVersion 1.0/1.1/1.2; servers forcing 1.0/1.1/1.2 with the RFC 8446 "
-         "sentinel set by the library's rule / omitted / forced DOWNGRD\\x01 / forced DOWNGRD\\x00; forced 1.3 (client material "
-         "fabricated when the hello did not offer it); TLS 1.3 named in the legacy version field; supported_versions in the ServerHello "
-         "naming 0x0305, the hello's own GREASE version, or 1.0/1.1/1.2. One instance case per parrot carries (Config Min/Max as written by "
-         "SetTLSVers from the spec's TLSVersMin/Max, hello.supportedVersions, the wire's supported_versions and legacy_version). Quick: "
-         "legacy servers (1.0/1.1/1.2), honest 1.2/1.3 servers and the forced-1.2 sentinel for every parrot, the custom spec against every scenario, the rest rotates with the seed; thorough: full product. "
-         "Distinct by (scenario, parrot); non-trivial when the handshake completed, a sentinel was present, or the server acted at an "
+    runner="C13", pkg="./cmd/c13", corr=["Corr.C13Corr"], n=dict(quick=900, thorough=3500), runner_timeout=900,
+    rule="every predefined parrot, 7 custom specs (TLSVersMax 1.2 under a supported_versions list {1.3,1.2}; lists with a hole {1.2,1.0}, "
+         "{GREASE,1.3,1.1}, {1.3,1.0}; no supported_versions extension with TLSVersMin raised to 1.2 / 1.1; a 1.3 parrot stripped of the "
+         "extension) and caller-side Config variations (MinVersion/MaxVersion pre-set wider 1.0..1.3 or narrower 1.2..1.2 than the spec, one "
+         "*Config reused after a Firefox_102 UConn) over loopback TCP against scripted servers: honest Go servers with MaxVersion "
+         "1.0/1.1/1.2/1.3; legacy servers negotiating from legacy_version only with MaxVersion 1.0/1.1/1.2; servers forcing 1.0/1.1/1.2 with the "
+         "RFC 8446 sentinel set by the library's rule / omitted / forced DOWNGRD\\x01 / forced DOWNGRD\\x00; forced 1.3 (client material "
+         "fabricated when the hello did not offer it); TLS 1.3 named in the legacy version field; supported_versions in the ServerHello naming "
+         "0x0305, the hello's own GREASE version, or 1.0/1.1/1.2. Two-connection histories over one ClientSessionCache (6 parrots + HelloGolang via "
+         "UClient; all parrots in thorough): a TLS 1.2 server issues a ticket, then a TLS 1.2 answer from a 1.3-capable server (sentinel) or a 1.2 "
+         "server (none), with the same ticket key (resumed) or another (full handshake). One instance case per client carries the spec's own "
+         "minimum, Config Min/Max as SetTLSVers left them, hello.supportedVersions, the wire's supported_versions and legacy_version. Quick: legacy "
+         "servers, honest 1.2/1.3 servers and the forced-1.2 sentinel for every parrot, custom specs against every scenario, Config variations "
+         "for the custom specs and 7 parrots against the old-version servers, the rest rotates with the seed; thorough: full product. Distinct "
+         "by (scenario, client, config mode); non-trivial when the handshake completed, a sentinel was present, or the server acted at an "
          "unadvertised version.",
     trusted_base=["verif_server.go scripted server and verif_c12.go view accessors", "harness/hs ClientHello wire parser",
                   "Go crypto/x509 against a throw-away CA",
                   "cryptography, certificate validation, Finished and record protection abstracted into the flight's f_crypto_ok bit"],
     assumes=["hello.supportedVersions equals the supported_versions list on the wire when the extension is sent, and the configured range lies "
              "within [spec minimum .. legacy_version] when it is not (versions_synced): checked for every parrot on every run",
-             "first handshake, no ECH configured (Config.supportedVersions drops < 1.3 under ECH; modelled, not exercised)"],
+             "no ECH configured (Config.supportedVersions drops < 1.3 under ECH; modelled, not exercised); TLS 1.2 ticket resumption modelled (Model/NegotiateSess.v), session-id caches and TLS 1.3 PSK histories not exercised here"],
     level_text="Proof for every view, wire hello and server flight that a completed handshake is at an advertised version, and that a "
                "client whose hello lists TLS 1.3 completes only at 1.3 when the first server hello carries a downgrade sentinel; both "
                "statements refuted for the pre-repair code (Firefox_102 witness; custom spec witness) with the strongest true "
